@@ -515,6 +515,15 @@ func profileFor(prop string) *Profile {
 		p.SameBlock = 0.7
 		p.PBoundary = 0.4
 		p.PSlash = 0.1
+	case "C13":
+		// clean configuration: no value-changing events between accrual and claim (those are C12)
+		p.Inflation = 1
+		p.PSlash, p.PEvidence, p.PDowntime = 0, 0, 0
+		p.TakeRates = []string{"0"}
+		p.W["claim"] = 18
+		p.W["donate"] = 8
+		p.W["gov_update"] = 5
+		p.PGas = 0.03
 	case "C12":
 		p.Inflation = 1
 		p.PSlash, p.PEvidence, p.PDowntime = 0.12, 0.04, 0.03
